@@ -329,7 +329,10 @@ def cases(ctx):
             elif form < 0.6:
                 lines.append('c[0] %s= %s' % (op, operand))
             elif form < 0.8:
-                lines.append('x = x %s %s' % (rnd.choice(OPS), operand))
+                # (no ** once an int-like builtin has run in this chain: with the known finding intlike-expands-exponent the operand can be an integer
+                #  of tens of thousands of digits, and libmpdec then spends 40 s uninterruptibly in one power - a consequence of that finding, not a new one)
+                intlike = any('int(' in ln or 'floor(' in ln or 'ceil(' in ln or 'round(' in ln for ln in lines)
+                lines.append('x = x %s %s' % (rnd.choice(OPS[:4] if intlike else OPS), operand))
             elif form < 0.9:
                 lines.append('x = %s(x)' % rnd.choice(['abs', 'int', 'round', 'floor', 'ceil', 'float']))
             else:
